@@ -726,6 +726,9 @@ func (r *EngineRunner) Exec(f []string) (res string) {
 		return fmt.Sprintf("%d %s", len(keys), Md5Hex([]byte(sb.String()))) + r.takeEvents(false)
 	case "list":
 		keys := r.db.ListKeys()
+		for _, k := range keys {
+			fillSpare(k) // appending to one listed key must not reach another
+		}
 		r.ref.list(r, keys)
 		return keysDigest(keys) + r.takeEvents(false)
 	case "fold":
@@ -1041,6 +1044,10 @@ func (r *EngineRunner) Exec(f []string) (res string) {
 			}
 			r.scribble()
 			r.events = nil
+			if victim >= 0 && f[1] == "bputsyncfail" && r.ref.batchStart < 0 {
+				// pieces of the batch are in the file and in the index now: for the oracles the batch has begun to take effect
+				r.ref.batchStart = r.opStart
+			}
 			if victim >= 0 {
 				if err == nil {
 					r.fail("C05", "a Batch.Put whose overflow flush was refused by the operating system reported success")
